@@ -1,0 +1,22 @@
+//go:build verif
+// +build verif
+
+// Machine-checked contracts for package tablelib (comment-only; read by /verif/govc).
+
+package tablelib
+
+// table.remove(list, pos) (manual §6.6): pos must be in [1, #list+1] (or 0 when
+// #list is 0); elements are only ever read or written at positions between pos
+// and #list+1, all of them >= 1 unless the list is empty.
+//@ func remove
+//@   prop C19
+//@   arith int
+//@   norte
+//@   requires t != nil && c != nil && 0 <= c.nArgs && c.nArgs <= len(c.args)
+//@   modifies everything()
+//@   exits any
+//@   loop 1: invariant true
+// (A position equal to #list or #list+1 is accepted whatever its sign, as in the
+// reference implementation - #list may come from a __len metamethod - and then only
+// that position is touched.)
+//@   assert_before_call SetIndex inscope: typeis($idx.iface, int64) && $idx.AsInt() >= pos && (pos >= 1 || $idx.AsInt() == pos)
